@@ -275,6 +275,10 @@ def main(argv):
         fns_by_key = {"%s|%s::%s" % (f["file"], f["impl"], f["fn"]): f for f in ctx.fn_index}
         for k, f in fns_by_key.items():
             if f.get("forced_stub_reason") and k not in stub: stub.add(k); stub_reason[k] = f["forced_stub_reason"]
+            # a repo function whose contract is ASSUMED (external_body: Display, wrap_value, ...) and whose body changed: the assumption was made
+            # about the old body - the function is outside the verifier's reach and the bounded witness search decides (DESIGN 2.4)
+            if baseline and f["external_body"] and k in baseline and baseline.get(k) != f["body_hash"] and k not in stub:
+                stub.add(k); stub_reason[k] = "body of a function whose contract is assumed (external_body) has changed"
         changed = [k for k, f in fns_by_key.items() if baseline and baseline.get(k) != f["body_hash"] and not f["external_body"] and k not in stub]
         # a contracted function that vanished while a new one with the same signature appeared in the same impl: a rename, the contract follows
         more = False
